@@ -107,6 +107,8 @@ def gen(rng, tier, open_keys):
                     qq = min(q, 100.0)
                     ops.append(["q", repr(q), int((qq / 100) * float(total) + 0.5)])
             ops += [["min"], ["max"], ["reimport"], ["merge"]] if not big else [["max"], ["merge"]]
+            if rng.random() < 0.5:
+                ops += [["snaprec", rng.choice([mn, mx, max(mn, mx // 2)]), rng.choice([1, 3])], ["total"], ["max"]]
             if rng.random() < 0.3:
                 ops.append(["dist"])
             if rng.random() < 0.1:
@@ -145,6 +147,20 @@ def predicate(line, obs, allow_known=False):
             if mn <= v <= mx and o != "ok":
                 return f"recording the in-range value {v} (min={mn}, max={mx}, sigfigs={sig}) failed"
             if o == "ok":
+                vals.append((v, c))
+        elif k == "snaprec":
+            v, c = int(op[1]), int(op[2])
+            tot = sum(cc for _, cc in vals)
+            head, res = o.split("/")
+            t0, t1, mxeq = head.split(",")
+            if int(t0) != tot or int(t1) != tot:
+                return (f"Import(Export(h)) held {t0} occurrences and {t1} after {v} was recorded into the original; "
+                        f"the exported state had {tot} (the copy is not independent of the original)")
+            if mxeq != "1":
+                return "Import(Export(h)).Max() differs from h.Max()"
+            if mn <= v <= mx and res != "ok":
+                return f"recording the in-range value {v} failed"
+            if res == "ok":
                 vals.append((v, c))
         elif k == "reset":
             vals = []
